@@ -259,6 +259,13 @@ func equalsAny(a, b any) (res bool, panicked bool) {
 
 func genC07(r *R, n int, tier string, out *Out) {
 	o := defaultOpts()
+	// Go strings are byte strings: Equals compares them exactly, also when they are not valid UTF-8
+	o.Str = func(r *R) string {
+		if r.chance(0.12) {
+			return pickOf(r, []string{"\xff", "\xfe", "caf\xe9", "caf\xe8", "\xfe\xff", "\xef\xbf\xbd", "a\xc0\xafb", "\xed\xa0\x80", "caf\xef\xbf\xbd"})
+		}
+		return r.str()
+	}
 	o.Floats = func(r *R) float64 {
 		if r.chance(0.04) {
 			return math.NaN()
@@ -554,8 +561,13 @@ func genC14(r *R, n int, tier string, out *Out) {
 					break
 				}
 				x.Add("\x00sentinel")
+				x.Add("\x00sentinel2").Pop() // the value Add returns and Pop go through the result's own identity
 				if canon(l) != before {
-					fail("adding to result %d of a Map/Filter view changed the receiver", ri)
+					fail("adding to / popping from result %d of a Map/Filter view changed the receiver", ri)
+					break
+				}
+				if canon(x) == canons[ri] {
+					fail("adding to result %d of a Map/Filter view did not change that result", ri)
 					break
 				}
 				for rj, y := range results {
@@ -706,6 +718,9 @@ func genC17(r *R, n int, tier string, out *Out) {
 			ln = 0
 		} else if r.chance(0.15) {
 			ln = 13 + r.Intn(40) // beyond the insertion-sort threshold of sort.Slice and friends
+		}
+		if boosted() {
+			ln = 60 + r.Intn(200)
 		}
 		var elems []*V
 		tag := ""
